@@ -1152,6 +1152,46 @@ class Engine:
                 continue
             yield s2, (VNONE if acc is None else V(ty, z3.simplify(acc(v.t))))
 
+    _KW_USE = {}
+    KW_IGNORED_OK = ('Logger.',)       # logging calls: keyword arguments change the log record only
+
+    def kwargs_guard(self, fn, name, kwargs, line):
+        """A library contract that never looks at its keyword arguments cannot honour them: a
+        call that passes some is outside the modelled subset (not silently the default
+        behaviour)."""
+        if not kwargs or any(name.startswith(p) for p in self.KW_IGNORED_OK):
+            return
+        key = id(fn)
+        uses = self._KW_USE.get(key)
+        if uses is None:
+            import dis
+            try:
+                todo, uses = [fn], False
+                seen = set()
+                while todo and not uses:
+                    f = todo.pop()
+                    code = getattr(f, '__code__', None)
+                    if code is None or id(code) in seen:
+                        continue
+                    seen.add(id(code))
+                    uses = any(i.argval == 'kwargs' and i.opname.startswith('LOAD')
+                               for i in dis.get_instructions(code))
+                    # wrappers built by decorators / lambdas: look at the functions they close over
+                    for c in (getattr(f, '__closure__', None) or ()):
+                        try:
+                            if callable(c.cell_contents):
+                                todo.append(c.cell_contents)
+                        except ValueError:
+                            pass
+            except Exception:
+                uses = True
+            self._KW_USE[key] = (uses, fn)
+        else:
+            uses = uses[0]
+        if not uses:
+            raise EngineError('library contract %s does not model keyword arguments %s (line %d)'
+                              % (name, sorted(kwargs), line))
+
     def ev_Await(self, e, st):
         for s1, v in self.ev(e.value, st):
             if isinstance(v, Raise):
@@ -1399,6 +1439,7 @@ class Engine:
         kind = d[0]
         if kind == 'lib':
             self.libuse.add(d[1])
+            self.kwargs_guard(d[2], d[1], kwargs, line)
             yield from d[2](self, st, args, kwargs, line)
         elif kind == 'libm' and len(d) == 3:
             # spec mode, method of a dynamically typed value: defined when it is a str
@@ -1413,6 +1454,7 @@ class Engine:
                     yield s2, Raise('AttributeError', (), line)
         elif kind == 'libm':
             self.libuse.add(d[1])
+            self.kwargs_guard(d[3], d[1], kwargs, line)
             yield from d[3](self, st, d[2], args, kwargs, line)
         elif kind == 'repo':
             yield from self.call_repo(st, d[1], d[2], d[3], args, kwargs, line, awaited)
